@@ -13,8 +13,9 @@ import fp2real
 from core import ExtractionError, Undecided
 from extract import strip_comments
 
-SIN = "|__CPROVER_uninterpreted_sin|"
-COS = "|__CPROVER_uninterpreted_cos|"
+ZERO_AXIOM = False   # sin 0 = 0, cos 0 = 1 instances: only for the t=0 obligations
+SIN = "__CPROVER_uninterpreted_sin"
+COS = "__CPROVER_uninterpreted_cos"
 
 # --- R3: closed table of the sqrt literals that occur in SU_inc (value = product of symbols) ------------
 SQ = {'2': 'S2', '3': 'S3', '3.': 'S3', '5': 'S5', '6': '(S2*S3)', '10': '(S2*S5)', '15': '(S3*S5)', '30': '(S2*S3*S5)',
@@ -125,33 +126,105 @@ class QResult:
         self.divisors = 0
 
 
+def _aliases(forms):
+    al = {}
+    rx = re.compile(r'^\(define-fun (\|[^|]+\|) \(\) Real (\|[^|]+\|)\)$')
+    for t in forms:
+        m = rx.match(t)
+        if m:
+            al[m.group(1)] = m.group(2)
+    def res(x):
+        seen = 0
+        while x in al and seen < 100:
+            x = al[x]
+            seen += 1
+        return x
+    return res
+
+
+_SYM = r'\|[^|]+\|'
+
+
 def trig_axioms(forms):
-    sargs = fp2real.uf_args(forms, SIN)
-    cargs = fp2real.uf_args(forms, COS)
-    args = []
-    for a in sargs + cargs:
-        if a not in args:
-            args.append(a)
-    out = []
-    for a in args:
-        out.append("(assert (= (+ (* (%s %s) (%s %s)) (* (%s %s) (%s %s))) 1.0))" % (SIN, a, SIN, a, COS, a, COS, a))
-    # parity, pairwise conditional instances
-    for i, a in enumerate(args):
-        for b in args[i + 1:]:
-            out.append("(assert (=> (= %s (- %s)) (and (= (%s %s) (- (%s %s))) (= (%s %s) (%s %s)))))" %
-                       (a, b, SIN, a, SIN, b, COS, a, COS, b))
-    # double angle, pairwise conditional instances: a = 2*b
-    for a in args:
-        for b in args:
-            if a is b:
+    """Ackermannisation of sin/cos (DESIGN 4.2): every application (sin a)/(cos a) becomes a fresh real constant per
+    argument class; the axiom instances over the classes that occur are added: s^2+c^2=1, a=0 => (s,c)=(0,1),
+    double angle (definitional when a is syntactically 2*b, conditional otherwise), parity and congruence
+    (conditional, pairwise) for compound arguments.  Returns (new forms, axioms, #classes)."""
+    res = _aliases(forms)
+    raw = []
+    for a in fp2real.uf_args(forms, SIN) + fp2real.uf_args(forms, COS):
+        if a not in raw:
+            raw.append(a)
+    if not raw:
+        return forms, [], 0
+    if any(("(" + SIN + " ") in a or ("(" + COS + " ") in a for a in raw):
+        raise Undecided("nested sin/cos application")
+    classes = []          # canonical texts
+    cls_of = {}
+    for a in raw:
+        c = re.sub(_SYM, lambda m: res(m.group(0)), a)
+        if c not in classes:
+            classes.append(c)
+        cls_of[a] = classes.index(c)
+    # replace applications (longest argument first so that no text is a prefix problem)
+    new = []
+    for t in forms:
+        if t.startswith("(declare-fun %s " % SIN) or t.startswith("(declare-fun %s " % COS):
+            continue
+        if ("(" + SIN + " ") in t or ("(" + COS + " ") in t:
+            for a in sorted(raw, key=len, reverse=True):
+                t = t.replace("(%s %s)" % (SIN, a), "|sin#%d|" % cls_of[a]).replace("(%s %s)" % (COS, a), "|cos#%d|" % cls_of[a])
+            if ("(" + SIN + " ") in t or ("(" + COS + " ") in t:
+                raise Undecided("sin/cos application not replaced")
+        new.append(t)
+    decl = []
+    simple = re.compile(r'^(%s|\(\* 2\.0 %s\))$' % (_SYM, _SYM))
+    defined = set()
+    # definitional double angle: class k has text (* 2.0 X) with X another class
+    for k, c in enumerate(classes):
+        m = re.match(r'^\(\* 2\.0 (.*)\)$', c)
+        if m and m.group(1) in classes:
+            j = classes.index(m.group(1))
+            decl.append("(define-fun |sin#%d| () Real (* 2.0 |sin#%d| |cos#%d|))" % (k, j, j))
+            decl.append("(define-fun |cos#%d| () Real (- (* |cos#%d| |cos#%d|) (* |sin#%d| |sin#%d|)))" % (k, j, j, j, j))
+            defined.add(k)
+    pre = []
+    for k, c in enumerate(classes):
+        if k not in defined:
+            pre.append("(declare-fun |sin#%d| () Real)" % k)
+            pre.append("(declare-fun |cos#%d| () Real)" % k)
+    # order: declared constants first, then definitional ones (which refer to declared ones or earlier definitions)
+    ax = []
+    for k, c in enumerate(classes):
+        if k in defined:
+            continue
+        ax.append("(assert (= (+ (* |sin#%d| |sin#%d|) (* |cos#%d| |cos#%d|)) 1.0))" % (k, k, k, k))
+        if ZERO_AXIOM:
+            ax.append("(assert (=> (= %s 0.0) (and (= |sin#%d| 0.0) (= |cos#%d| 1.0))))" % (c, k, k))
+    for i, ci in enumerate(classes):
+        for j, cj in enumerate(classes):
+            if i >= j:
                 continue
-            out.append("(assert (=> (= %s (* 2.0 %s)) (and (= (%s %s) (* 2.0 (%s %s) (%s %s))) "
-                       "(= (%s %s) (- (* (%s %s) (%s %s)) (* (%s %s) (%s %s)))))))" %
-                       (a, b, SIN, a, SIN, b, COS, b, COS, a, COS, b, COS, b, SIN, b, SIN, b))
-    # sin 0 = 0, cos 0 = 1 (conditional)
-    for a in args:
-        out.append("(assert (=> (= %s 0.0) (and (= (%s %s) 0.0) (= (%s %s) 1.0))))" % (a, SIN, a, COS, a))
-    return out, len(args)
+            if simple.match(ci) and simple.match(cj):
+                continue       # distinct simple arguments: independent (or definitional, handled above)
+            ax.append("(assert (=> (= %s %s) (and (= |sin#%d| |sin#%d|) (= |cos#%d| |cos#%d|))))" % (ci, cj, i, j, i, j))
+            ax.append("(assert (=> (= %s (- %s)) (and (= |sin#%d| (- |sin#%d|)) (= |cos#%d| |cos#%d|))))" % (ci, cj, i, j, i, j))
+    # constants must be declared before first use: put them right after set-logic; the canonical argument texts used in
+    # the axioms only mention symbols defined in the body, so the axioms go at the end.
+    out = []
+    placed = False
+    for t in new:
+        out.append(t)
+        if not placed and t.startswith("(set-logic"):
+            out.extend(pre)
+            placed = True
+    if not placed:
+        out = pre + out
+    # definitional double angles refer only to declared constants: safe right after the declarations
+    idx = out.index(pre[-1]) + 1 if pre else 0
+    # chains (4*x defined via 2*x) need dependency order: sort by class text length
+    out[idx:idx] = sorted(decl, key=len) if False else decl
+    return out, ax, len(classes)
 
 
 def run_query(q, bdir, inc=()):
@@ -190,7 +263,7 @@ def run_query(q, bdir, inc=()):
     r.divisors = len(sw.divisors)
     ax = []
     if q.trig:
-        ax, r.n_trig = trig_axioms(forms)
+        forms, ax, r.n_trig = trig_axioms(forms)
     if q.extra_axioms:
         ax.append(q.extra_axioms)
     body = "\n".join(forms)
@@ -207,6 +280,8 @@ def run_query(q, bdir, inc=()):
         f.write(full)
     with open(base + ".z3.smt2", "w") as f:
         f.write(full + gv)
+    with open(base + ".nl.smt2", "w") as f:
+        f.write(body + "\n" + "\n".join(ax) + "\n" + NLSAT + "\n" + gv)
     r.cmds.append("fp2real ; z3 -T:%d | cvc5 --tlimit (portfolio)" % q.timeout)
     ans, who, s, o = portfolio_named(base, q.timeout)
     r.seconds += s
@@ -223,14 +298,21 @@ def run_query(q, bdir, inc=()):
     return r
 
 
-def portfolio_named(base, timeout):
+NLSAT = "(check-sat-using (then simplify propagate-values solve-eqs simplify qfnra-nlsat))"
+
+
+def _spawn(cmd):
+    return subprocess.Popen(cmd, stdout=subprocess.PIPE, stderr=subprocess.DEVNULL, text=True, preexec_fn=core._limits(8))
+
+
+def portfolio_named(base, timeout, stage1=4.0):
+    """z3 with the nlsat tactic first (by far the fastest on these polynomial identities); if it has no answer after
+    `stage1` seconds, z3 (default strategy) and cvc5 join.  First definitive answer wins."""
     t0 = time.time()
-    procs = [("z3", subprocess.Popen(["z3", "-T:%d" % timeout, base + ".z3.smt2"], stdout=subprocess.PIPE,
-                                     stderr=subprocess.DEVNULL, text=True, preexec_fn=core._limits(8))),
-             ("cvc5", subprocess.Popen(["cvc5", "--tlimit=%d" % (timeout * 1000), base + ".smt2"], stdout=subprocess.PIPE,
-                                       stderr=subprocess.DEVNULL, text=True, preexec_fn=core._limits(8)))]
+    procs = [("z3-nlsat", _spawn(["z3", "-T:%d" % timeout, base + ".nl.smt2"]))]
     ans, who, out = "unknown", "", ""
     pending = list(procs)
+    joined = False
     deadline = t0 + timeout + 5
     while pending and time.time() < deadline:
         progressed = False
@@ -250,6 +332,15 @@ def portfolio_named(base, timeout):
                             pass
                     pending = []
                     break
+        if ans != "unknown":
+            break
+        if not joined and (time.time() - t0 > stage1 or not pending):
+            joined = True
+            more = [("z3", _spawn(["z3", "-T:%d" % timeout, base + ".z3.smt2"])),
+                    ("cvc5", _spawn(["cvc5", "--tlimit=%d" % (timeout * 1000), base + ".smt2"]))]
+            procs += more
+            pending += more
+            progressed = True
         if not progressed:
             time.sleep(0.02)
     for _, qq in pending:
